@@ -8,10 +8,13 @@ from . import common
 ID = 'C04'
 LEVEL = 'fault_enumeration'
 TIERS = {
-    'quick': {'cases': 220, 'wall': 110, 'chunk': 2},
-    'thorough': {'cases': 6000, 'wall': 1500, 'chunk': 4},
+    'quick': {'cases': 512 + 220, 'wall': 110, 'chunk': 2},
+    'thorough': {'cases': 512 + 6000, 'wall': 1500, 'chunk': 4},
 }
-RULE = ('case i: an array-heavy program (array literals whose elements contain allocating calls, dynamic '
+RULE = ('cases 0..511: the BAD-LENGTH MATRIX (seed independent): a dynamic array of each element type x word size '
+        '{2,3,4,8} x 16 negative / minimal / maximal / wrapping run-time lengths x {local, callee}, declared next '
+        'to a live array literal, stored into and read back, at 14 stack sizes 6..1200 words: every run must end in '
+        'stack_overflow before any store, with the monitors silent. Further cases: an array-heavy program (array literals whose elements contain allocating calls, dynamic '
         'arrays with argv lengths, arrays passed down recursion, bool arrays over several bytes, library '
         'routines called from the deepest frame - also "lean" functions whose deepest call is write(int) next '
         'to a live stack array, and "frame shape" functions built from a seeded sequence of deep calls, array '
@@ -307,7 +310,66 @@ def judge_size(p, argv, W, s, ref, kind, N, poison):
     return probs, ev, cfg
 
 
+# ---- bad-length matrix: a negative / wrapping run-time length must end in stack_overflow before any store, at
+# every stack size, for every element type and word size (the guards compute with sizes that wrap)
+BADLEN = [(el, n, W, where) for el in ('int', 'byte', 'bool', 'string') for W in (2, 3, 4, 8)
+          for n in (-1, -2, -3, -4, -5, -7, -8, -9, -12, -16, -17, 'min', 'min+1', 'wrap1', 'wrap1+1', 'max')
+          for where in ('local', 'callee')]
+N_BADLEN = len(BADLEN)
+
+
+def badlen_case(k):
+    from .c05 import len_value
+    el, n, W, where = BADLEN[k]
+    maxs = (1 << (8 * W - 1)) - 1
+    v = n if isinstance(n, int) else {'min': -maxs - 1, 'min+1': -maxs}.get(n)
+    if v is None:
+        v = len_value(n, el, W)
+    core = [decl(arr('int'), 'before', ('arr', (I(11), I(22), V('fz'))), True), write(S('a')), dyn(el, 'd', V('fz')),
+            write(ln('d')), setv(idx('d', I(0)), {'int': I(1), 'byte': C('x'), 'bool': B(True), 'string': S('s')}[el]),
+            write(S('b')), ex(call('dump', V('before')))]
+    if where == 'callee':
+        funcs = [func('empty', 'mk', [('int', 'fz')], *core)]
+        body = [write(S('p')), ex(call('mk', V('fz'))), write(S('q'))]
+    else:
+        funcs, body = [], core
+    p = prog([], [dump_func('int')] + funcs + [func('empty', '@is_you', [('int', 'fz')], *body)])
+    res = common.new_result()
+    res['counters']['kind_badlen_matrix'] = 1
+    bad = None
+    runs = 0
+    ref = None
+    for s_ in (6, 12, 13, 14, 15, 16, 17, 18, 20, 24, 33, 64, 200, 1200):
+        cfg = dict(W=W, stack=s_, poison_seed=k * 50 + s_, max_steps=300_000)
+        ev = common.evaluate(p, [str(v)], ref=ref, **cfg)
+        ref = ev.ref
+        common.add_counters(res, ev)
+        runs += 1
+        pr = [(c, d) for c, d in ev.problems if c in CLASSES and c != 'history']
+        if ev.res is not None and not (ev.res.outcome == 'ERROR' and ev.res.error_kind == 'stack_overflow'):
+            pr.append(('history', f'{el} d[{v}] ({n}) at word size {W}, stack {s_} words: expected stack_overflow, '
+                                  f'got {ev.res.outcome}/{ev.res.error_kind} [{hist_text(ev.res.history, 200)}]'))
+        elif ev.res is not None and ev.res.output() not in (b'', b'a', b'p', b'pa'):
+            pr.append(('history', f'{el} d[{v}] at stack {s_}: output {ev.res.output()!r} after the faulting declaration'))
+        if pr and bad is None:
+            bad = (pr, ev)
+    res['key'] = digest('badlen', el, str(n), W, where)
+    res['nontrivial'] = runs > 0
+    res['counters']['sizes_run'] = runs
+    res['faults_fired']['stack_overflow'] = runs
+    res['digest'] = digest(res['key'], bad[0] if bad else None)
+    if bad is not None:
+        probs, ev_b = bad
+        res['violations'].append({'cls': probs[0][0], 'detail': probs[0][1], 'fingerprint': None,
+                                  'payload': common.payload(p, [str(v)], ev_b, {'kind': 'badlen', 'badlen_idx': k}),
+                                  'sample': common.sample_of(p, [str(v)], ev_b)})
+    return res
+
+
 def case(seed, idx, tier):
+    if idx < N_BADLEN:
+        return badlen_case(idx)
+    idx -= N_BADLEN
     rnd, p, argv, W, kind, twin = make_case(seed, idx)
     res = common.new_result()
     # generous run first
@@ -418,6 +480,8 @@ def case(seed, idx, tier):
 
 
 def replay(pl):
+    if pl.get('kind') == 'badlen':
+        return [{'cls': v['cls'], 'detail': v['detail'], 'fingerprint': None} for v in badlen_case(pl['badlen_idx'])['violations']]
     p = lang.from_json(pl['prog'])
     cfg = pl['cfg']
     ev0 = common.evaluate(p, pl['argv'], W=cfg['W'], stack=common.GENEROUS)
